@@ -4,12 +4,10 @@ go 1.23
 
 require (
 	github.com/anishathalye/porcupine v1.3.0
+	github.com/klauspost/compress v1.17.5
 	github.com/lxzan/gws v0.0.0
 )
 
-require (
-	github.com/dolthub/maphash v0.1.0 // indirect
-	github.com/klauspost/compress v1.17.5 // indirect
-)
+require github.com/dolthub/maphash v0.1.0 // indirect
 
 replace github.com/lxzan/gws => /repo
